@@ -13,8 +13,6 @@ import (
 
 	formula "github.com/aundis/formula"
 	"github.com/ericlagergren/decimal"
-
-	"verif/harness/tlaval"
 )
 
 // Dec projects a *decimal.Big exactly: canonical <<neg, digits, exp>> (no leading or
@@ -220,13 +218,13 @@ func value(v interface{}, depth int) any {
 		return T{"map", m}
 	case reflect.Struct:
 		m := map[string]any{}
-		hidden := tlaval.Set{Elems: []any{}}
+		hidden := []any{}
 		for i := 0; i < rv.NumField(); i++ {
 			f := rv.Type().Field(i)
 			if f.IsExported() {
 				m[f.Name] = value(rv.Field(i).Interface(), depth+1)
 			} else {
-				hidden.Elems = append(hidden.Elems, f.Name)
+				hidden = append(hidden, f.Name)
 			}
 		}
 		return T{"struct", m, hidden}
